@@ -114,6 +114,24 @@ def coarse(t):
     return s[0]
 
 
+def coarse2(t):
+    """very coarse operand class for arithmetic sites: const / param / field / call:<name> / elem / expr"""
+    s = t
+    while s[0] == "cast" or s[0] in ("ref", "deref"):
+        s = s[2] if s[0] == "cast" else s[1]
+    if P.const_int(s) is not None:
+        return "const"
+    if s[0] == "param":
+        return "param"
+    if s[0] in ("field", "variant"):
+        return "field"
+    if s[0] == "call":
+        return "call:" + s[1].rsplit("::", 1)[-1]
+    if s[0] in ("index", "cindex"):
+        return "elem"
+    return "expr"
+
+
 def sites_of(F, fn):
     pr = P.Prov(fn)
     out = []
@@ -138,7 +156,7 @@ def sites_of(F, fn):
                 a, b = pr.operand(m["a"]), pr.operand(m["b"])
                 cl = t["cond"].get("move") or t["cond"].get("copy") or {"l": 0}
                 ty = fn.local_ty(cl["l"]).strip("()").split(",")[0]
-                out.append(Site(fn, bi, "assert-overflow", f"{m['op']}:{ty}", blk["line"],
+                out.append(Site(fn, bi, "assert-overflow", f"{m['op']}:{ty}|{coarse2(a)}|{coarse2(b)}", blk["line"],
                                 {"a": a, "b": b, "op": m["op"]}))
             else:
                 out.append(Site(fn, bi, "assert-" + kind, "", blk["line"]))
